@@ -62,6 +62,10 @@ ASSUMPTIONS = [
     'incr / decr are only generated for keys that hold integers, and only where the stored integer and the result lie inside the signed '
     '64-bit range (Cache.incr adds inside an SQLite INTEGER column: arithmetic beyond it is outside the property text, as for memcached); '
     'versions are integers',
+    'keys are text in the theorem and the correspondence; the monitors add tuples (length 0-3, nested), integers, bytes, None, a float and a bool as keys, identified by '
+    'their text as Django\'s default key function does (two equal-hashing keys with different text, 1 and 1.0, are never passed in one get_many / set_many); '
+    'incr_version / decr_version (inherited from django BaseCache unchanged) are not called on a missing tuple key of length other than 1, where BaseCache\'s own '
+    '"Key \'%s\' not found" % key raises TypeError in every backend',
 ]
 
 # Former finding C19-F1 (D6, fixed in core.py): incr/decr exactly at the expiry instant incremented an item no lookup
@@ -81,6 +85,21 @@ SHRINK_PER_SIG = 2
 MAX_DISAGREEMENTS = 6
 
 _uid = [0]
+
+# Keys travel through histories as JSON strings.  A plain string is itself; KEYTAG + repr(obj) stands for the Python object obj
+# (a tuple, an int, bytes, None, a float ...: Django's make_key formats the caller's key with %s, so every object is a key, and two
+# objects with the same str() are the SAME key).
+KEYTAG = '<py>'
+
+
+def mkkey(k):
+    if isinstance(k, str) and k.startswith(KEYTAG):
+        return eval(k[len(KEYTAG):], {'__builtins__': {}})      # noqa: S307 (reprs written by this module)
+    return k
+
+
+def keyspec(obj):
+    return obj if isinstance(obj, str) and not obj.startswith(KEYTAG) else KEYTAG + repr(obj)
 
 
 # ---------------------------------------------------------------------------
@@ -202,8 +221,9 @@ def canon_call(op, thunk):
     if o == 'get_many':
         if not isinstance(r, dict):
             return ['other', repr(r)[:80]]
-        return ['map', [[k, canon(r[k])] for k in op['keys'] if k in r]
-                + [[repr(k), canon(r[k])] for k in r if k not in op['keys']]]
+        asked = [mkkey(k) for k in op['keys']]
+        return ['map', [[k, canon(r[mk])] for k, mk in zip(op['keys'], asked) if mk in r]
+                + [[repr(k), canon(r[k])] for k in r if k not in asked]]
     return canon(r)
 
 
@@ -259,7 +279,8 @@ class Reference:
         self.ever = set()                   # every (version, key) that was ever stored
 
     def vk(self, key, version):
-        return (self.version if version is None else version, key)
+        # (the contract addresses an entry by prefix, version and the key FORMATTED AS TEXT: 7 and '7' are one key)
+        return (self.version if version is None else version, str(mkkey(key)))
 
     def live(self, vk, now):
         e = self.d.get(vk)
@@ -378,36 +399,37 @@ def invoke(cache, op):
                 tkw['timeout'] = DEFAULT_TIMEOUT
         else:
             tkw['timeout'] = t
+    key = mkkey(op['key']) if 'key' in op else None
     if o == 'add':
-        return cache.add(op['key'], mkval(op['value']), version=ver, **tkw)
+        return cache.add(key, mkval(op['value']), version=ver, **tkw)
     if o == 'set':
-        return cache.set(op['key'], mkval(op['value']), version=ver, **tkw)
+        return cache.set(key, mkval(op['value']), version=ver, **tkw)
     if o == 'get_or_set':
         value = mkval(op['value'])
         if op.get('callable'):
-            return cache.get_or_set(op['key'], lambda: value, version=ver, **tkw)
-        return cache.get_or_set(op['key'], value, version=ver, **tkw)
+            return cache.get_or_set(key, lambda: value, version=ver, **tkw)
+        return cache.get_or_set(key, value, version=ver, **tkw)
     if o == 'touch':
-        return cache.touch(op['key'], version=ver, **tkw)
+        return cache.touch(key, version=ver, **tkw)
     if o == 'get':
-        return cache.get(op['key'], version=ver)
+        return cache.get(key, version=ver)
     if o == 'delete':
-        return cache.delete(op['key'], version=ver)
+        return cache.delete(key, version=ver)
     if o == 'has_key':
-        return cache.has_key(op['key'], version=ver)
+        return cache.has_key(key, version=ver)
     if o == 'pop':
-        return cache.pop(op['key'], version=ver)
+        return cache.pop(key, version=ver)
     if o in ('incr', 'decr', 'incr_version', 'decr_version'):
         f = getattr(cache, o)
         if op.get('delta') is None:
-            return f(op['key'], version=ver)
-        return f(op['key'], delta=op['delta'], version=ver)
+            return f(key, version=ver)
+        return f(key, delta=op['delta'], version=ver)
     if o == 'get_many':
-        return cache.get_many(list(op['keys']), version=ver)
+        return cache.get_many([mkkey(k) for k in op['keys']], version=ver)
     if o == 'delete_many':
-        return cache.delete_many(list(op['keys']), version=ver)
+        return cache.delete_many([mkkey(k) for k in op['keys']], version=ver)
     if o == 'set_many':
-        return cache.set_many(dict((k, mkval(v)) for k, v in op['items']), version=ver, **tkw)
+        return cache.set_many(dict((mkkey(k), mkval(v)) for k, v in op['items']), version=ver, **tkw)
     if o == 'clear':
         return cache.clear()
     raise ValueError('unknown op ' + o)
@@ -419,7 +441,8 @@ class Runner:
     def __init__(self, params, clock, mkdir):
         """params: SHARDS, TIMEOUT, KEY_PREFIX, VERSION; optional MIN_FILE_SIZE (OPTIONS disk_min_file_size), DATABASE_TIMEOUT,
         CONTEND (install the tracer so that calls of the history can be made under lock contention), INTEGERS (a history of the
-        integer-boundary dimension: its disagreements carry the sig prefix integer_)."""
+        integer-boundary dimension: its disagreements carry the sig prefix integer_), KEYS (a history of the key dimension: keys
+        that are not strings; sig prefix key_)."""
         self.params = params
         self.clock = clock
         clock.set(T0)
@@ -543,7 +566,7 @@ class Runner:
             pre = list(e) if e is not None else None
         lm_stale = False
         if o == 'delete':
-            mk = self.lm.make_key(op['key'], version=op.get('version'))
+            mk = self.lm.make_key(mkkey(op['key']), version=op.get('version'))
             lm_stale = mk in self.lm._cache and self.lm._has_expired(mk)
         # the three calls, clock frozen
         exp = ref.apply(op, now)
@@ -551,7 +574,7 @@ class Runner:
         if o == 'pop':
             lmr = None                      # LocMemCache has no pop: keep its state in step, nothing to compare
             try:
-                self.lm.delete(op['key'], version=op.get('version'))
+                self.lm.delete(mkkey(op['key']), version=op.get('version'))
             except Exception:  # noqa: BLE001
                 pass
         else:
@@ -561,7 +584,7 @@ class Runner:
         # what kind of history the disagreement belongs to (plain ones keep the plain names)
         kind = ('contended_' if op.get('contend') else 'after_contention_' if self.contended_before
                 else 'value_' if (has_val(exp) or has_val(obs) or has_val(lmr))
-                else 'integer_' if self.params.get('INTEGERS') else '')
+                else 'integer_' if self.params.get('INTEGERS') else 'key_' if self.params.get('KEYS') else '')
         if op.get('contend'):
             self.contended_before = True
         if obs != exp:
@@ -688,10 +711,16 @@ def gen_clock(rng, now, ref):
     return now + rng.choice([0, 0, 0, TICK, 1, 2.5])
 
 
-def gen_op(rng, now, ref, values=None):
-    """values: None = integers 0..9 (the histories the model is run on); else a list of value specs mixed with them."""
+def gen_op(rng, now, ref, values=None, keys=None):
+    """values: None = integers 0..9 (the histories the model is run on); else a list of value specs mixed with them.
+    keys: None = the five text keys; else a list of key specs (the reference knows a key by its text: a known key is addressed through
+    any spec of the pool that has this text)."""
     o = rng.choices(OPS, weights=[WEIGHTS[x] for x in OPS])[0]
     known = sorted(ref.d.keys())
+    pool = KEYS if keys is None else keys
+    by_text = {}
+    for spec in (keys or []):
+        by_text.setdefault(str(mkkey(spec)), []).append(spec)
 
     def value():
         if values is not None and rng.random() < 0.6:
@@ -707,24 +736,26 @@ def gen_op(rng, now, ref, values=None):
     def key_ver():
         if known and rng.random() < 0.65:
             v, k = rng.choice(known)
+            if keys is not None:
+                k = rng.choice(by_text.get(k, [k]))
             r = rng.random()
             if r < 0.7:
                 return k, (v if (v != ref.version or rng.random() < 0.5) else None)
             return k, version()
-        return rng.choice(KEYS[:3] + KEYS), version()
+        return rng.choice(pool[:3] + pool), version()
 
     def timeout():
         return rng.choice([DEF, DEF, None, 0, -1, 5, 5])
 
-    def keys():
-        return rng.sample(KEYS, rng.choice([1, 2, 3]))
+    def some_keys():
+        return rng.sample(pool, rng.choice([1, 2, 3]))
 
     if o == 'clear':
         return mkop(o, now)
     if o in ('get_many', 'delete_many'):
-        return mkop(o, now, keys=keys(), version=version())
+        return mkop(o, now, keys=some_keys(), version=version())
     if o == 'set_many':
-        return mkop(o, now, items=[[k, value()] for k in keys()], timeout=timeout(), version=version(),
+        return mkop(o, now, items=[[k, value()] for k in some_keys()], timeout=timeout(), version=version(),
                     pass_default=rng.random() < 0.5)
     k, v = key_ver()
     if values is not None and o in ('incr', 'decr'):
@@ -1046,6 +1077,64 @@ def gen_integer_op(rng, now, ref):
 
 
 # ---------------------------------------------------------------------------
+# keys that are not strings
+
+
+KEY_OBJECTS = [(), ('user', 42), ('a', 'b', 'c'), ('x',), 7, 0, -3, b'raw', None, 2.5, True, ((1, 2), 'n'), 10 ** 20, ('', None)]
+KEY_POOL = [keyspec(k) for k in KEY_OBJECTS] + ['a', 'b', '7', 'None', "('user', 42)", '()']      # the last four: text that IS the text of an object above
+
+
+def outside_django(op, ref, now):
+    """incr_version / decr_version are BaseCache's own methods, inherited by DjangoCache and LocMemCache alike; on a key that is not there
+    they format their message with the caller's key, which for a tuple of length other than 1 is a TypeError of Django itself."""
+    if op['op'] not in ('incr_version', 'decr_version'):
+        return False
+    k = mkkey(op['key'])
+    return isinstance(k, tuple) and len(k) != 1 and ref.live(ref.vk(op['key'], op.get('version')), now) is None
+
+
+def gen_key_op(rng, now, ref):
+    """gen_op over the key pool; a version move Django itself cannot report (see outside_django) becomes an incr / decr of that key"""
+    op = gen_op(rng, now, ref, keys=KEY_POOL)
+    if outside_django(op, ref, now):
+        op = mkop('incr' if op['op'] == 'incr_version' else 'decr', now, key=op['key'], delta=rng.choice([None, 1, 2]), version=op.get('version'))
+    return op
+
+
+def directed_keys():
+    """One history per key object: every method on the key while it is missing, live, expired (one tick before, at and after the
+    instant), moved to another version, popped, deleted and stored with a timeout of 0 / -1; the text of the object, used as a plain
+    string key, addresses the same entry; expected results come from the reference."""
+    H = []
+    T = TICK
+    for i, obj in enumerate(KEY_OBJECTS):
+        params = {'SHARDS': 1 + i % 3, 'TIMEOUT': (300, None, 7)[i % 3], 'KEY_PREFIX': ('', 'p', 'a:b')[(i // 3) % 3],
+                  'VERSION': 1 + (i // 2) % 2, 'KEYS': True}
+        own = params['VERSION']
+        k = keyspec(obj)
+        alias = str(obj)
+        K, A, up = dict(key=k), dict(key=alias), dict(key=k, version=own + 1)
+        steps = [
+            (0, 'incr', K), (0, 'decr', dict(key=k, delta=2)), (0, 'get', K), (0, 'has_key', K), (0, 'touch', dict(key=k, timeout=5)),
+            (0, 'delete', K), (0, 'pop', K), (0, 'get_many', dict(keys=[k, 'b'])), (0, 'delete_many', dict(keys=[k])),
+            (0, 'add', dict(key=k, value=5, timeout=5)), (0, 'get', K), (0, 'get', A), (0, 'has_key', K), (0, 'has_key', A),
+            (0, 'get_many', dict(keys=[k, 'b'])), (0, 'incr', K), (0, 'decr', dict(key=k, delta=2)), (0, 'incr', A),
+            (0, 'add', dict(key=k, value=9)), (0, 'get_or_set', dict(key=k, value=1)), (0, 'incr', up), (0, 'decr', up), (0, 'get', up),
+            (5 - T, 'incr', K), (5, 'incr', K), (5, 'decr', K), (5, 'incr', dict(key=k, delta=-1)), (5, 'get', K), (5, 'has_key', K),
+            (5, 'touch', dict(key=k, timeout=None)), (5 + T, 'incr', K), (5 + T, 'decr', dict(key=k, delta=3)),
+            (6, 'set', dict(key=k, value=3, timeout=None)), (6, 'set_many', dict(items=[[k, 8], ['b', 2]], timeout=None)),
+            (6, 'get_many', dict(keys=[k, 'b', alias])), (6, 'touch', dict(key=k, timeout=5)), (6, 'incr', dict(key=k, delta=2)),
+            (7, 'incr_version', K), (7, 'get', up), (7, 'incr', K), (7, 'decr', K), (7, 'incr', up), (7, 'decr_version', up), (7, 'get', K),
+            (8, 'pop', K), (8, 'incr', K), (8, 'get_or_set', dict(key=k, value=2, callable=True)), (8, 'decr', K), (8, 'delete', K),
+            (8, 'decr', K), (8, 'set', dict(key=alias, value=4)), (8, 'incr', K), (8, 'delete_many', dict(keys=[k, 'b'])), (8, 'incr', A),
+            (8, 'set', dict(key=k, value=1, timeout=0)), (8, 'incr', K), (8, 'set', dict(key=k, value=1, timeout=-1)), (8, 'decr', K),
+            (8, 'add', dict(key=k, value=6, timeout=None)), (9, 'clear', {}), (9, 'incr', K), (9, 'get', K),
+        ]
+        H.append(('key', params, [mkop(o, T0 + dt, **kw) for dt, o, kw in steps]))
+    return H
+
+
+# ---------------------------------------------------------------------------
 # contention
 
 
@@ -1121,6 +1210,7 @@ class Stats:
         self.contention_histories = self.contended = self.waited = 0
         self.contended_ops = {}
         self.integer_histories = self.integer_calls = 0
+        self.key_histories = self.key_calls = 0
 
     def call(self, op, rec):
         self.calls += 1
@@ -1136,6 +1226,7 @@ class Stats:
         self.errors += rec['impl'][0] == 'raise'
         self.value_calls += has_val(rec['impl'])
         self.integer_calls += big_int(rec['impl'])
+        self.key_calls += any(isinstance(k, str) and k.startswith(KEYTAG) for k in [op.get('key')] + list(op.get('keys', [])) + [kv[0] for kv in op.get('items', [])])
         if op.get('contend'):
             self.contended_ops[op['op']] = self.contended_ops.get(op['op'], 0) + 1
 
@@ -1147,6 +1238,7 @@ class Stats:
                 'histories': self.histories, 'directed_histories': self.directed, 'configs': len(self.configs),
                 'locmem_delete_stale_excluded': self.stale, 'violations_by_sig': dict(sorted(self.per_sig.items())),
                 'value_histories': self.value_histories, 'calls_returning_a_non_integer_value': self.value_calls,
+                'key_histories': self.key_histories, 'calls_with_a_key_that_is_not_a_string': self.key_calls,
                 'integer_boundary_histories': self.integer_histories,
                 'calls_returning_an_integer_of_at_least_2**31': self.integer_calls,
                 'contention_histories': self.contention_histories, 'contended_calls': self.contended,
@@ -1249,6 +1341,7 @@ def monitor(ctx, res, nrandom, lo, hi, st=None):
         monitor_values(ctx, res, st, clock, mkdir, max(6, nrandom // 8))
         monitor_contention(ctx, res, st, clock, mkdir, max(10, nrandom // 5))
         monitor_integers(ctx, res, st, clock, mkdir, max(6, nrandom // 10))      # last: the generated streams before it stay what they were
+        monitor_keys(ctx, res, st, clock, mkdir, max(8, nrandom // 10))          # (likewise)
     res.extra.update(st.extra())
     return out
 
@@ -1297,6 +1390,23 @@ def monitor_contention(ctx, res, st, clock, mkdir, nrandom):
         params['DATABASE_TIMEOUT'] = None if rng.random() < 0.08 else 0
         run_history(res, st, params, clock, mkdir, rng=rng, length=rng.randint(8, 16), gen=gen_contended_op)
         st.contention_histories += 1
+
+
+def monitor_keys(ctx, res, st, clock, mkdir, nrandom):
+    """The key dimension: Django formats the caller's key into the cache key, so tuples, integers, bytes, None, floats are keys like any
+    other; every method does on them what the contract says -- in particular incr / decr of a missing or expired key raise ValueError."""
+    import warnings
+    rng = ctx.rng
+    with warnings.catch_warnings():
+        warnings.simplefilter('ignore')         # (LocMemCache warns that keys with spaces would not be portable to memcached)
+        for name, params, ops in directed_keys():
+            run_history(res, st, params, clock, mkdir, ops=ops, name=name)
+            st.key_histories += 1
+        for _ in range(nrandom):
+            params = gen_params(rng)
+            params['KEYS'] = True
+            run_history(res, st, params, clock, mkdir, rng=rng, length=rng.randint(16, 26), gen=gen_key_op)
+            st.key_histories += 1
 
 
 REGRESSION_PARAMS = {'SHARDS': 1, 'TIMEOUT': 300, 'KEY_PREFIX': '', 'VERSION': 1}
@@ -1499,6 +1609,11 @@ RULE = (
     '-2**53-1, 2**63-2, 2**63-1, 2**63, 2**63+1, -2**63+1, -2**63, -2**63-1, -2**63-2, 2**64-1, 2**64, 2**64+1, -2**64, 10**30, -10**30 through '
     'set / add / get_or_set (plain and callable) / set_many / touch / get / get_many / has_key / pop / delete / incr_version / decr_version; '
     'incr / decr only where the stored integer and the result lie inside the signed 64-bit range.  '
+    'Key dimension (monitors only; same reference and LocMemCache; nrandom/10 generated histories of 16-26 calls + one directed history per key object; '
+    'sig prefix key_): keys (), ("user", 42), ("a","b","c"), ("x",), 7, 0, -3, b"raw", None, 2.5, True, ((1, 2), "n"), 10**20, ("", None) and the plain strings '
+    '"7", "None", "(\'user\', 42)", "()" whose text equals the text of one of them (the contract addresses an entry by the key formatted as text), through every '
+    'method, on missing, live, expired (one tick before / at / after the instant), version-moved, popped, deleted and zero-timeout keys; incr_version / '
+    'decr_version of a missing tuple key of length other than 1 is not generated (BaseCache itself fails to format its message).  '
     'Contention dimension (monitors only; nrandom/5 generated histories of 8-16 calls + 32 directed ones covering every method): a call '
     'is made, with probability 0.4, while one other sqlite3 connection per shard holds that shard\'s write lock (BEGIN IMMEDIATE); '
     'the locks are released when the calling thread makes its (k+1)-th BEGIN attempt, k in {1,2,3}, and with probability 0.6 taken '
